@@ -31,7 +31,11 @@ def _run_bin(binary, args, env=None, budget=900):
             return os.stat(out).st_mtime_ns if os.path.exists(out) else 0
         except OSError:
             return 0
-    outcome, rc, text = proc.run([binary] + args + ["--out", out, "--status", status], env=e, budget_s=budget)
+    # (see driver/e1.py: a chunk that is still shrinking after 240 s is re-run without shrinking)
+    outcome, rc, text = proc.run([binary] + args + ["--out", out, "--status", status], env=e, budget_s=min(budget, 240) if "RC_PARAMS" in e else budget)
+    if outcome == "inconclusive" and "RC_PARAMS" in e and "noshrink" not in e["RC_PARAMS"]:
+        e["RC_PARAMS"] += " noshrink=1"
+        outcome, rc, text = proc.run([binary] + args + ["--out", out, "--status", status], env=e, budget_s=budget)
     res = None
     if os.path.exists(out):
         try:
